@@ -506,6 +506,22 @@ func (g *gen) customCache(cfg M, steps []any, p float64) {
 // follows every message.
 func (g *gen) behC07() M {
 	steps := []any{g.startupX("u")}
+	if g.chance(0.02) {
+		// a long-lived connection: well over a hundred statements and portals defined and closed again - a closed
+		// name stays closed, the hundred-and-thirtieth like the first
+		rounds := 130 + g.rng.Intn(30)
+		for r := 0; r < rounds; r++ {
+			q := g.trivialQ()
+			steps = append(steps, send(M{"t": "P", "name": "a", "q": q, "noids": 0}),
+				send(M{"t": "B", "portal": "p", "stmt": "a", "pfmt": []any{}, "params": []any{}, "rfmt": []any{}}),
+				send(M{"t": "C", "kind": "S", "name": "a"}), send(M{"t": "C", "kind": "P", "name": "p"}), send(M{"t": "S"}))
+			if r%10 == 9 || r >= 125 {
+				steps = append(steps, send(M{"t": "B", "portal": "p2", "stmt": "a", "pfmt": []any{}, "params": []any{}, "rfmt": []any{}}), send(M{"t": "S"}),
+					send(M{"t": "E", "portal": "p", "max": 0}), send(M{"t": "S"}))
+			}
+		}
+		return M{"cfg": baseCfg(), "steps": steps}
+	}
 	n := 1 + g.rng.Intn(30)
 	pfrom := map[string]string{}
 	tainted := map[string]bool{}
